@@ -324,7 +324,18 @@ U18 = universe("U18", 4, [
          "(ite (f 1 2) (v 3) (f 3 2))"],
    note="three children sharing three slots, child class symmetric")
 
-ALL = {"U18": U18, "U17": U17, "U16": U16, "U15": U15, "U14": U14, "U13": U13, "U12": U12, "U11": U11, "U10": U10, "U9": U9, "U8": U8, "U7": U7, "U1": U1, "U2": U2, "U3": U3, "U4": U4, "U5": U5, "U6": U6}
+# U19 "a dearer sibling first": a class whose two e-nodes become ready in the SAME step of the extractor's work list - both use the
+# class g(c) that is settled - at different costs (h(g(c), c) = 4, g(g(c)) = 3), while everything still waiting is dearer (h(g(d), g(d)) = 5).
+# A work list that settles the first candidate it sees (seeded C06o: a one-element fast lane in front of the heap) fixes the class at 4.
+# Both roles of c / d, so that either order of the two cost-2 classes is covered.
+U19 = universe("U19", 4, [
+    ("(h (g c) c)", "(g (g c))"),
+    ("(h (g d) d)", "(g (g d))"),
+    ("(h (g c) (g c))", "(h (g d) (g d))"),
+], base=["(h (g d) (g d))", "(h (g c) (g c))", "(g (h (g c) c))"],
+   note="two candidates of one class ready in the same step, the dearer one possibly first; dearer work pending")
+
+ALL = {"U19": U19, "U18": U18, "U17": U17, "U16": U16, "U15": U15, "U14": U14, "U13": U13, "U12": U12, "U11": U11, "U10": U10, "U9": U9, "U8": U8, "U7": U7, "U1": U1, "U2": U2, "U3": U3, "U4": U4, "U5": U5, "U6": U6}
 
 if __name__ == "__main__":
     out = os.path.dirname(os.path.abspath(__file__))
